@@ -19,6 +19,13 @@ def run(c):
         items = cc.link_items(sc)
         g = cj.GenJ(sc, rng.fork(), big=False)
         pre = [sc.desc_line()]
+        if getattr(sc, "origin_tl2", False):
+            res = cj.tl2_origin_roundtrip(c, sc, model, cj.tl2_origin_values(c, sc, items, rng, per))
+            rw = cj.Rewriter(sc, rng.fork())
+            cases = cj.build_c06_cases(c, sc, rw, res, rng, cap)
+            l2 = sorted({l for cs in cases for l in cs["lines"]})
+            cj.oracle_c06(c, cases, {l: a for l, a, _ in c.tie("rj:" + sc.sid, l2, sc.impl, model, prefix=pre)})
+            continue
         # types whose reader/writer pair panics on `{}` (finding F3, reported by C05) are left out
         c05_known = {k["key"] for k in load_known().get("findings", []) if k.get("property") == "C05"}
         n0 = len(c.tie_failures)
